@@ -22,7 +22,12 @@ theorem fact_consumer_calls :
     Facts.C05.callsVpNonce = (Kind.burn .vpNonce).apiCalls ∧
     Facts.C05.callsRedirect.take 1 = (Kind.burn .redirect).apiCalls ∧
     Facts.C05.callsS2S = (Kind.mark .s2s).apiCalls ∧
-    Facts.C05.callsJti = (Kind.mark .jti).apiCalls := by decide
+    Facts.C05.callsJti = (Kind.mark .jti).apiCalls ∧
+    -- OpenID4VCI: the token request takes the flow through FindAndDeleteReference, which is GetAndDelete on the
+    -- reference store (then a plain Get of the flow under another key)
+    Facts.C05.vciTokenCalls.take 1 = ["store.FindAndDeleteReference"] ∧
+    Facts.C05.vciFindAndDeleteCalls.take 1 = (Kind.burn .preAuth).apiCalls ∧
+    Facts.C05.vciFindAndDeleteCalls.drop 1 = ["flowStore.Get"] := by decide
 
 /-- the one-time stores are used by exactly these functions: the four issuing functions `Put` (fresh random keys),
     every other access is one of the modelled consumers -/
@@ -76,6 +81,8 @@ theorem program_matches_api_calls :
       = ex (.burn .reqObj) (Kind.burn .reqObj).api ∧
     soloOps todayMem 9 (init (st (.burn .redirect)) [.burn { kind := .redirect, id := "s" }])
       = ex (.burn .redirect) (Kind.burn .redirect).api ∧
+    soloOps todayMem 9 (init (st (.burn .preAuth)) [.burn { kind := .preAuth, id := "s", want := "c" }])
+      = ex (.burn .preAuth) (Kind.burn .preAuth).api ∧
     -- s2s nonce, DPoP jti: PutIfAbsent (Get, and Set when it missed)
     soloOps todayMem 9 (init [] [.mark ⟨.s2s, "s"⟩]) = ex (.mark .s2s) (Kind.mark .s2s).api ∧
     soloOps todayMem 9 (init [] [.mark ⟨.jti, "s"⟩]) = ex (.mark .jti) (Kind.mark .jti).api ∧
